@@ -272,6 +272,22 @@ def run(cx, rep):
                 if c["k"] == "MethodCall" and c["method"] == "get" and (c.get("recv_ty") or "").replace("&mut ", "").lstrip("&") in table_tys:
                     n_get += 1
                     tg = D.tags(c["args"][0])
+                    if not tg:
+                        # the lookup sits in a helper that is handed the name: the key is a parameter, judged at the call sites
+                        plids = [p_.get("lid") if p_["k"] == "P.Binding" else None for p_ in tree["params"]]
+                        kl = [x.get("lid") for x in walk(c["args"][0]) if x["k"] == "Path" and x.get("res") == "local"]
+                        idx = [plids.index(l_) for l_ in kl if l_ in plids]
+                        if idx:
+                            for g2, t2 in trees:
+                                D2 = None
+                                for c2 in walk(t2["body"]):
+                                    if c2["k"] in ("Call", "MethodCall") and F._callee_gid(g2.crate, (c2.get("callee") if c2["k"] == "Call" else (c2.get("resolved") or c2.get("callee"))) or "") == g.id:
+                                        if D2 is None:
+                                            D2 = Deriv(t2)
+                                            D2.tag_fields(t2, "UnresolvedExport", ("name", "renamed"))
+                                        args2 = ([c2["recv"]] if c2["k"] == "MethodCall" else []) + list(c2["args"])
+                                        if idx[0] < len(args2):
+                                            tg = tg | D2.tags(args2[idx[0]])
                     rep.ob("C09.1", "bind/local-lookup-key", "name" in tg and "renamed" not in tg,
                            "local declarations must be looked up by the original name (key derives from UnresolvedExport.%s)" % sorted(tg), "%s:%s" % (g.file, c["line"]))
                 if c["k"] == "Match" and (c.get("scrut_adt") or "").endswith("ImportReference"):
@@ -297,6 +313,12 @@ def run(cx, rep):
             flows = inside_insert(F.hir[g.id], lambda x: x is m or (x["k"] == "Path" and x.get("lid") in bound)) or any(
                 inside_insert(t2, lambda x: x["k"] in ("Call", "MethodCall") and F._callee_gid(g.crate, x.get("callee") or x.get("resolved") or "") == g.id)
                 for _, t2 in trees)
+            if not flows:
+                # the helper classifies (`-> Option<Target>`), its caller registers what it gets back
+                for g2, t2 in trees:
+                    calls_g = [x for x in walk(t2["body"]) if x["k"] in ("Call", "MethodCall") and F._callee_gid(g.crate, (x.get("callee") if x["k"] == "Call" else (x.get("resolved") or x.get("callee"))) or "") == g.id]
+                    if calls_g and any(x["k"] == "MethodCall" and x["method"] in INSERTS for x in walk(t2["body"])):
+                        flows = True
             for a in m["arms"]:
                 v = (a["pat"].get("def") or "_").rsplit("::", 1)[-1]
                 reg = any(x["k"] == "MethodCall" and x["method"] in INSERTS for x in walk(a["body"]))
@@ -556,13 +578,20 @@ def run(cx, rep):
             # error is returned under the outcome of that insert
             if not any((c.best or "").endswith(("print_name_for_js_codegen", "ts_identifier", "print_rt_name")) for c in f.calls):
                 continue
+            def errs_in(b):
+                return [r for r in walk(b) if r["k"] == "Ret" and any((y.get("callee") or "").endswith("::Err") or "anyhow" in " ".join(y.get("mac") or []) for y in walk(r) if y["k"] in ("Call", "MethodCall"))] or \
+                    [y for y in walk(b) if y["k"] == "Call" and (y.get("callee") or "").endswith("::Err")]
+            def is_ins(x):
+                return x["k"] == "MethodCall" and x["method"] == "insert" and "<std::string::String" in (x.get("recv_ty") or "")
             for i in walk(t["body"]):
-                if i["k"] != "If":
-                    continue
-                ins = [x for x in walk(i["cond"]) if x["k"] == "MethodCall" and x["method"] == "insert" and "<std::string::String" in (x.get("recv_ty") or "")]
-                errs = [r for r in walk(i["then"]) if r["k"] == "Ret" and any((y.get("callee") or "").endswith("::Err") for y in walk(r) if y["k"] == "Call")]
-                if ins and errs:
-                    dup_check = True
+                # `if let Some(old) = m.insert(printed, ..) { return Err }` or `match m.insert(..) { Some(old) [if ..] => return Err, .. }`
+                if i["k"] == "If":
+                    if any(is_ins(x) for x in walk(i["cond"])) and errs_in(i["then"]):
+                        dup_check = True
+                elif i["k"] == "Match" and any(is_ins(x) for x in walk(i["scrut"])):
+                    for a_ in i["arms"]:
+                        if any((p_.get("def") or "").endswith("::Some") for p_ in walk(a_["pat"])) and errs_in(a_["body"]):
+                            dup_check = True
         rep.ob("C09.4", "mangled-name-collision-check", dup_check,
                "the printed name of a named type goes through a many-to-one mangling (non-identifier characters of the file path become `_`) and no check compares printed names before they are used as keys of namedRuntypes: two files `a-b.ts` / `a_b.ts` exporting the same type name collapse into one definition",
                mang[0].loc())
@@ -617,6 +646,23 @@ def star_hop_rule(cx, rep, rid):
         foreign = [x for x in reads if not any(z["k"] == "Path" and z.get("name") == "self" for z in rwalk(x))]
         if not back and foreign:
             back = True
+        if not back and any(c.indirect or ((c.path or "").startswith(("std::ops::Fn::call", "std::ops::FnMut::call_mut", "std::ops::FnOnce::call_once")) and not c.resolved) for c in f.calls):
+            # the walker is handed the question as a function value (`lookup: impl Fn(&Exports, ..)`): the recursion
+            # closes through its callers - every caller must lead back to itself (its closure asks the target again)
+            callers = [h for h in F.fns if g in F.edges.get(h, ()) and F.fns[h].kind != "Closure"]
+
+            def loops(h):
+                seen2, work2 = set(), list(F.edges.get(h, ()))
+                while work2:
+                    x = work2.pop()
+                    if x == h:
+                        return True
+                    if x in seen2 or x == g:
+                        continue
+                    seen2.add(x)
+                    work2.extend(F.edges.get(x, ()))
+                return False
+            back = bool(callers) and all(loops(h) for h in callers)
         rep.ob(rid, "%s/re-enters" % g.rsplit("::", 1)[-1], back,
                "%s walks the `export *` targets of a module but never re-enters the lookup for a target: a name the target re-exports itself (a second `export *`, `export { X } from`, an exported import) is not found through the star, so a re-export chain of length two no longer resolves although the single-file program compiles" % g,
                "%s:%s" % (f.file, reads[0]["line"]), sample={"fn": g, "star_list_field": reads[0]["name"], "recursive": back})
